@@ -13,6 +13,11 @@ Bounded-exhaustive enumeration on the real constructors / kernels:
           long series, lags of either sign, metric pairs, embeddings
   isrn    InterSystemRecurrenceNetwork for all pairs, unequal lengths,
           with and without embedding
+  scale   a fixed list of structured dyadic series of 130, 150, 209, 300
+          samples (row blocks of 128/256, flat indices >= 32768): every way
+          of choosing the threshold, embeddings, three metrics, NaN around
+          positions 0/128/256/end; cross (150,209); joint lag +-40;
+          inter-system (130,90); vectorised oracle on the stored values
 Oracle: refmodel/recurrence.py (Fractions on the values as stored).  Every RQA
 method is called on every object built ("applicable"): an explicit
 NotImplementedError is counted as excluded, any other exception is a violation.
@@ -825,8 +830,479 @@ def fam_isrn(case):
     return acc.result(False)
 
 
+
+# --------------------------------------------------------------------------
+# family scale: hundreds of state vectors (row blocks of 128/256, int16 flat
+# indices >= 32768 from N >= 182), vectorised oracle
+
+PRIME = 307
+
+
+def _pattern(name, n):
+    """Deterministic dyadic series (few significant bits, exact in float32)."""
+    i = np.arange(n)
+    if name == "saw":                 # period 16, many ties
+        return ((i * 7) % 16) * 0.25
+    if name == "steps":               # plateaus of 5 with a small ripple
+        return (i // 5 % 6) * 0.5 + (i % 2) * 0.125
+    if name == "blocks":              # runs crossing positions 128 and 256
+        hi = ((i >= 126) & (i < 131)) | ((i >= 254) & (i < 259)) | \
+            (i >= n - 3)
+        return np.where(hi, 2.0, 0.0) + (i % 3) * 0.25
+    if name == "squares":             # all values distinct, few tied rows
+        q = (i * 37) % PRIME
+        return q * q / 64.0
+    if name == "qres":
+        return ((i * i) % 23) * 0.5
+    raise ValueError(name)
+
+
+MV_POS = [0, 5, 127, 128, 129, 255, 256]
+
+
+def _series(spec):
+    name, n = spec[0], spec[1]
+    x = _pattern(name, n)
+    if len(spec) > 2 and spec[2]:
+        x = x.copy()
+        for q in MV_POS + [n - 1, n - 2]:
+            if q < n:
+                x[q] = NAN
+    return x
+
+
+def _sizeclass(n):
+    return "N>256" if n > 256 else ("N>128" if n > 128 else "N<=128")
+
+
+def _diff(got, exp):
+    got, exp = np.asarray(got), np.asarray(exp)
+    if got.shape != exp.shape:
+        return "shape %r != %r" % (got.shape, exp.shape)
+    idx = np.argwhere(got != exp)
+    return "%d entries differ, first at %r (got %r, expected %r)" % (
+        len(idx), idx[0].tolist(), got[tuple(idx[0])].item(),
+        exp[tuple(idx[0])].item())
+
+
+S_THR = [0.5, 1.25]
+S_RATES = [0.05, 0.5]
+S_ADAPT = [1, 4]
+
+
+def _scale_rp(case, acc):
+    from pyunicorn.timeseries import RecurrencePlot, RecurrenceNetwork
+    spec, emb = case["x"], case.get("emb")
+    x = _series(spec)
+    mv = bool(len(spec) > 2 and spec[2])
+    dim, tau = emb if emb else (None, None)
+    X = rr.np_states(x, dim, tau)
+    n = len(X)
+    sc = _sizeclass(n)
+    missing = np.isnan(X).any(axis=1)
+    kw = dict(silence_level=3)
+    if emb:
+        kw.update(dim=dim, tau=tau)
+    if mv:
+        kw["missing_values"] = True
+    keep = np.nonzero(~missing)[0]
+    for metric in METRICS:
+        K = rr.np_keys(X, X, metric)
+        rp = RecurrencePlot(x, metric=metric, threshold=1024.0, **kw)
+        acc.evals += 2
+        E = np.asarray(rp.embedding)
+        if E.shape != X.shape or not np.array_equal(E, X, equal_nan=True):
+            acc.v("RecurrencePlot.embedding:value:%s:%s" % (
+                "embedded" if emb else "plain", sc), _diff(E, X))
+            continue
+        D = np.asarray(rp.distance_matrix(metric))
+        Dexp = rr.np_key_float(K, metric)
+        fin = ~np.isnan(Dexp)
+        if D.shape != Dexp.shape or not np.allclose(D[fin], Dexp[fin], **F64):
+            acc.v("RecurrencePlot.distance_matrix:value:%s:%s" % (metric, sc),
+                  "distance kernel disagrees with the metric definition",
+                  D[-1, -8:], Dexp[-1, -8:])
+            continue
+        plots = [({"threshold": t}, "threshold", rr.np_threshold(K, t, metric))
+                 for t in S_THR]
+        if metric != "euclidean":
+            ds = np.unique(K[~np.isnan(K)])
+            t = float(ds[len(ds) // 2])        # a realised distance
+            plots.append(({"threshold": t}, "threshold",
+                          rr.np_threshold(K, t, metric)))
+        if mv:
+            # only the missing-value rule is defined for the other variants
+            for r in S_RATES:
+                plots.append(({"recurrence_rate": r}, "recurrence_rate", None))
+                plots.append(({"local_recurrence_rate": r},
+                              "local_recurrence_rate", None))
+            plots.append(({"adaptive_neighborhood_size": S_ADAPT[1]},
+                          "adaptive", None))
+        else:
+            R_, gap = rr.np_below_sq(K, rr.np_std_sq(x, 1.0), metric)
+            if gap > 1e-4:
+                plots.append(({"threshold_std": 1.0}, "threshold_std", R_))
+            else:
+                acc.x("threshold_std within float32 rounding of a distance")
+            for r in S_RATES:
+                plots.append(({"recurrence_rate": r}, "recurrence_rate",
+                              rr.np_rate(K, r)))
+                plots.append(({"local_recurrence_rate": r},
+                              "local_recurrence_rate",
+                              rr.np_local_rate(K, r)))
+            for a in S_ADAPT:
+                plots.append(({"adaptive_neighborhood_size": a}, "adaptive",
+                              "adaptive"))
+        for par, variant, exp in plots:
+            tag = "%s%s:%s" % (variant, "+mv" if mv else "", sc)
+            acc.evals += 1
+            try:
+                rp = RecurrencePlot(x, metric=metric, **kw, **par)
+            except Exception as e:   # noqa
+                acc.v("RecurrencePlot.__init__:raises:" + tag, "%s %r: %s" % (
+                    metric, par, _exc(e)), _exc(e), "a plot")
+                continue
+            R = _mat(rp.recurrence_matrix())
+            acc.see(metric, par, hashlib.sha1(R.tobytes()).hexdigest())
+            if R.shape != (n, n):
+                acc.v("RecurrencePlot.recurrence_matrix:shape:" + tag, "",
+                      R.shape, (n, n))
+                continue
+            if mv and (R[missing, :].any() or R[:, missing].any()):
+                acc.v("RecurrencePlot.recurrence_matrix:missing-recurrent:"
+                      + tag, "%s %r" % (metric, par),
+                      int(R[missing, :].sum() + R[:, missing].sum()), 0)
+            if exp is None:
+                acc.x("%s: quantile of distances containing NaN (only the "
+                      "missing-value rule is judged)" % variant)
+            elif isinstance(exp, str):
+                val = par["adaptive_neighborhood_size"]
+                off = R - np.diag(np.diag(R))
+                if not np.array_equal(R, R.T):
+                    acc.v("RecurrencePlot.recurrence_matrix:asymmetric:" + tag,
+                          "", "asymmetric", "symmetric")
+                if (off.sum(axis=1) < val).any():
+                    acc.v("RecurrencePlot.recurrence_matrix:"
+                          "too-few-neighbours:" + tag, "size %d" % val,
+                          int(off.sum(axis=1).min()), ">= %d" % val)
+            elif not np.array_equal(R, exp):
+                acc.v("RecurrencePlot.recurrence_matrix:value:" + tag,
+                      "%s %r: %s" % (metric, par, _diff(R, exp)),
+                      R[-1, -12:], exp[-1, -12:])
+            if variant == "local_recurrence_rate" and not mv:
+                free = rr.np_tie_free_rows(K)
+                acc.evals += 1
+                acc.s("scale: tie-free rows", len(free))
+                if len(set(R[free].sum(axis=1).tolist())) > 1:
+                    acc.v("RecurrencePlot.recurrence_matrix:unequal-counts:"
+                          + tag, "tie-free rows have different numbers of "
+                          "recurrences", sorted(set(
+                              R[free].sum(axis=1).tolist())), "equal")
+            bad = _sizes(rp, "RecurrencePlot", R, tag, acc)
+            if not bad:
+                _rate_value(rp, "RecurrencePlot", R, tag, acc)
+            acc.see(_rqa(rp, "RecurrencePlot", tag, acc, bad))
+            # -- the network, once per variant and metric
+            if not acc.budget(("snet", metric, variant), picks=(0,)):
+                continue
+            acc.evals += 1
+            try:
+                net = RecurrenceNetwork(x, metric=metric, **kw, **par)
+            except Exception as e:   # noqa
+                acc.v("RecurrenceNetwork.__init__:raises:" + tag, _exc(e),
+                      _exc(e), "a network")
+                continue
+            A = _mat(net.adjacency)
+            Rn = _mat(net.R)
+            if not np.array_equal(Rn, R):
+                acc.v("RecurrenceNetwork.R:differs-from-plot:" + tag,
+                      _diff(Rn, R))
+            want = rr.np_no_diagonal(Rn)[np.ix_(keep, keep)]
+            if A.shape != want.shape or not np.array_equal(A, want):
+                acc.v("RecurrenceNetwork.adjacency:value:" + tag,
+                      "%s %r: adjacency is not R without its diagonal: %s" % (
+                          metric, par, _diff(A, want)), A[-1, -12:],
+                      want[-1, -12:] if len(want) else [])
+            if bool(net.directed) != (variant == "local_recurrence_rate"):
+                acc.v("RecurrenceNetwork.directed:value:" + tag, "",
+                      net.directed, variant == "local_recurrence_rate")
+            acc.evals += 1
+            if int(net.n_links) != int(want.sum()) // (
+                    1 if net.directed else 2):
+                acc.v("RecurrenceNetwork.n_links:value:" + tag, "",
+                      net.n_links, int(want.sum()))
+            bad = _sizes(net, "RecurrenceNetwork", net.R,
+                         "missing_values" if mv else "plain:" + sc, acc)
+            acc.see(_rqa(net, "RecurrenceNetwork", tag, acc, bad))
+    return n
+
+
+def _scale_cross(case, acc):
+    from pyunicorn.timeseries import CrossRecurrencePlot
+    emb = case.get("emb")
+    x, y = _series(case["x"]), _series(case["y"])
+    dim, tau = emb if emb else (None, None)
+    X, Y = rr.np_states(x, dim, tau), rr.np_states(y, dim, tau)
+    nx, ny = len(X), len(Y)
+    sc = _sizeclass(max(nx, ny))
+    kw = dict(dim=dim, tau=tau) if emb else {}
+    for metric in METRICS:
+        K = rr.np_keys(X, Y, metric)
+        pars = [({"threshold": t}, rr.np_threshold(K, t, metric))
+                for t in S_THR]
+        pars += [({"recurrence_rate": r}, rr.np_rate(K, r)) for r in S_RATES]
+        for k, (par, exp) in enumerate(pars):
+            variant = list(par)[0]
+            tag = "%s:%s" % (variant, sc)
+            acc.evals += 1
+            crp = CrossRecurrencePlot(x, y, metric=metric, silence_level=3,
+                                      **kw, **par)
+            if k == 0:
+                acc.evals += 1
+                D = np.asarray(crp.distance_matrix(metric))
+                Dexp = rr.np_key_float(K, metric)
+                if D.shape != Dexp.shape or not np.allclose(D, Dexp, **F64):
+                    acc.v("CrossRecurrencePlot.distance_matrix:value:%s:%s" % (
+                        metric, sc), "", D[-1, -8:], Dexp[-1, -8:])
+                    break
+            CR = _mat(crp.recurrence_matrix())
+            acc.see(metric, par, hashlib.sha1(CR.tobytes()).hexdigest())
+            if CR.shape != (nx, ny) or not np.array_equal(CR, exp):
+                acc.v("CrossRecurrencePlot.recurrence_matrix:value:" + tag,
+                      "%s %r: %s" % (metric, par, _diff(CR, exp)),
+                      CR[-1, -12:] if CR.size else [], exp[-1, -12:])
+            bad = _sizes(crp, "CrossRecurrencePlot", CR, tag, acc, cross=True)
+            if not bad:
+                _rate_value(crp, "CrossRecurrencePlot", CR, tag, acc)
+            _rqa(crp, "CrossRecurrencePlot", tag, acc, bad)
+    return nx * ny
+
+
+def _scale_joint(case, acc):
+    from pyunicorn.timeseries import JointRecurrencePlot, \
+        JointRecurrenceNetwork
+    emb, lag = case.get("emb"), case["lag"]
+    x, y = _series(case["x"]), _series(case["y"])
+    if emb:
+        (dx, tx), (dy, ty) = emb
+        X, Y = rr.np_states(x, dx, tx), rr.np_states(y, dy, ty)
+        kw = dict(dim=(dx, dy), tau=(tx, ty))
+    else:
+        X, Y = rr.np_states(x), rr.np_states(y)
+        kw = {}
+    m = min(len(X), len(Y))
+    X, Y = X[:m], Y[:m]
+    size = m - abs(lag)
+    sc = _sizeclass(size)
+    lc = _lagclass(lag)
+    for mp in J_METRICS:
+        Kx, Ky = rr.np_keys(X, X, mp[0]), rr.np_keys(Y, Y, mp[1])
+        pars = [({"threshold": (0.75, 1.25)}, "threshold",
+                 rr.np_threshold(Kx, 0.75, mp[0]),
+                 rr.np_threshold(Ky, 1.25, mp[1])),
+                ({"recurrence_rate": (0.3, 0.6)}, "recurrence_rate",
+                 rr.np_rate(Kx, 0.3), rr.np_rate(Ky, 0.6))]
+        Rx, gx = rr.np_below_sq(Kx, rr.np_std_sq(x, 1.0), mp[0])
+        Ry, gy = rr.np_below_sq(Ky, rr.np_std_sq(y, 0.5), mp[1])
+        if min(gx, gy) > 1e-4:
+            pars.append(({"threshold_std": (1.0, 0.5)}, "threshold_std",
+                         Rx, Ry))
+        else:
+            acc.x("threshold_std within float32 rounding of a distance")
+        for par, variant, Rx, Ry in pars:
+            exp = rr.np_joint(Rx, Ry, lag)
+            tag = "%s:%s:%s" % (variant, lc, sc)
+            acc.evals += 1
+            try:
+                jrp = JointRecurrencePlot(x, y, metric=mp, lag=lag,
+                                          silence_level=3, **kw, **par)
+            except Exception as e:   # noqa
+                acc.v("JointRecurrencePlot.__init__:raises:" + tag,
+                      "%r %r: %s" % (mp, par, _exc(e)), _exc(e), "a plot")
+                continue
+            JR = _mat(jrp.recurrence_matrix())
+            acc.see(mp, par, hashlib.sha1(JR.tobytes()).hexdigest())
+            ok = JR.shape == (size, size) and np.array_equal(JR, exp)
+            if not ok:
+                acc.v("JointRecurrencePlot.recurrence_matrix:value:" + tag,
+                      "%r %r lag %d: %s" % (mp, par, lag, _diff(JR, exp)),
+                      JR[-1, -12:] if JR.size else [], exp[-1, -12:])
+            bad = _sizes(jrp, "JointRecurrencePlot", JR, lc + ":" + sc, acc)
+            if not bad:
+                _rate_value(jrp, "JointRecurrencePlot", JR, lc + ":" + sc, acc)
+            acc.see(_rqa(jrp, "JointRecurrencePlot", lc + ":" + sc, acc, bad))
+            if variant != "threshold":
+                continue
+            acc.evals += 2
+            try:
+                net = JointRecurrenceNetwork(x, y, metric=mp, lag=lag,
+                                             silence_level=3, **kw, **par)
+                A = _mat(net.adjacency)
+                JRn = _mat(net.JR)
+            except Exception as e:   # noqa
+                acc.v("JointRecurrenceNetwork.__init__:raises:" + tag,
+                      _exc(e), _exc(e), "a network")
+                continue
+            if not np.array_equal(JRn, JR):
+                acc.v("JointRecurrenceNetwork.JR:differs-from-plot:" + tag,
+                      _diff(JRn, JR))
+            want = rr.np_no_diagonal(JRn)
+            if A.shape != want.shape or not np.array_equal(A, want):
+                acc.v("JointRecurrenceNetwork.adjacency:value:" + tag,
+                      "%r lag %d: %s" % (mp, lag, _diff(A, want)),
+                      A[-1, -12:], want[-1, -12:])
+            bad = _sizes(net, "JointRecurrenceNetwork", net.JR,
+                         lc + ":" + sc, acc)
+            acc.see(_rqa(net, "JointRecurrenceNetwork", lc + ":" + sc, acc,
+                         bad))
+            try:
+                net.set_fixed_threshold(J_SECOND)
+                A = _mat(net.adjacency)
+                JR2 = _mat(net.JR)
+            except Exception as e:   # noqa
+                acc.v("JointRecurrenceNetwork.set_fixed_threshold:raises:%s:%s"
+                      % (lc, sc), _exc(e), _exc(e), "a network")
+                continue
+            exp2 = rr.np_joint(rr.np_threshold(Kx, J_SECOND[0], mp[0]),
+                               rr.np_threshold(Ky, J_SECOND[1], mp[1]), lag)
+            if JR2.shape != exp2.shape or not np.array_equal(JR2, exp2):
+                acc.v("JointRecurrenceNetwork.set_fixed_threshold:JR:%s:%s" % (
+                    lc, sc), _diff(JR2, exp2))
+            elif not np.array_equal(A, rr.np_no_diagonal(JR2)):
+                acc.v("JointRecurrenceNetwork.set_fixed_threshold:adjacency:"
+                      "%s:%s" % (lc, sc), _diff(A, rr.np_no_diagonal(JR2)))
+    return size
+
+
+def _scale_isrn(case, acc):
+    from pyunicorn.timeseries import InterSystemRecurrenceNetwork
+    emb = case.get("emb")
+    x, y = _series(case["x"]), _series(case["y"])
+    if emb:
+        dim, (tx, ty) = emb
+        X, Y = rr.np_states(x, dim, tx), rr.np_states(y, dim, ty)
+        kw = dict(dim=dim, tau=(tx, ty))
+        tag = "embedding"
+    else:
+        X, Y = rr.np_states(x), rr.np_states(y)
+        kw = {}
+        tag = "plain"
+    nx, ny = len(X), len(Y)
+    tag += ":" + _sizeclass(nx + ny)
+    for metric in METRICS:
+        Kx, Ky, Kc = rr.np_keys(X, X, metric), rr.np_keys(Y, Y, metric), \
+            rr.np_keys(X, Y, metric)
+        pars = [({"threshold": (0.75, 1.25, 0.5)}, [
+            rr.np_threshold(K, t, metric)
+            for K, t in zip((Kx, Ky, Kc), (0.75, 1.25, 0.5))]),
+                ({"recurrence_rate": (0.2, 0.5, 0.1)}, [
+                    rr.np_rate(K, t)
+                    for K, t in zip((Kx, Ky, Kc), (0.2, 0.5, 0.1))])]
+        for par, (Rx, Ry, CR) in pars:
+            variant = list(par)[0]
+            acc.evals += 3
+            try:
+                net = InterSystemRecurrenceNetwork(
+                    x, y, metric=metric, silence_level=3, **kw, **par)
+            except Exception as e:   # noqa
+                acc.v("InterSystemRecurrenceNetwork.__init__:raises:" + tag,
+                      "%s %r: %s" % (metric, par, _exc(e)), _exc(e),
+                      "a network")
+                continue
+            if (net.N, net.N_x, net.N_y) != (nx + ny, nx, ny):
+                acc.v("InterSystemRecurrenceNetwork.N:size-mismatch:" + tag,
+                      "", [net.N, net.N_x, net.N_y], [nx + ny, nx, ny])
+                continue
+            A = _mat(net.adjacency)
+            acc.see(metric, par, hashlib.sha1(A.tobytes()).hexdigest())
+            own = [_mat(net.rp_x.recurrence_matrix()),
+                   _mat(net.crp_xy.recurrence_matrix()),
+                   _mat(net.rp_y.recurrence_matrix())]
+            if not all(o.shape == e.shape and np.array_equal(o, e)
+                       for o, e in zip(own, (Rx, CR, Ry))):
+                acc.v("InterSystemRecurrenceNetwork.blocks:value:%s:%s" % (
+                    variant, tag), "%s %r" % (metric, par))
+                continue
+            want = rr.np_no_diagonal(rr.np_inter_system(Rx, CR, Ry))
+            if A.shape != want.shape or not np.array_equal(A, want):
+                acc.v("InterSystemRecurrenceNetwork.adjacency:value:" + tag,
+                      "%s %r: %s" % (metric, par, _diff(A, want)),
+                      A[-1, -12:], want[-1, -12:])
+            got = net.internal_recurrence_rates()
+            e_ = (Rx.sum() / nx ** 2, Ry.sum() / ny ** 2)
+            if not np.allclose(got, e_, **F64):
+                acc.v("InterSystemRecurrenceNetwork.internal_recurrence_rates"
+                      ":value:" + tag, "", got, e_)
+            if not np.isclose(net.cross_recurrence_rate(),
+                              CR.sum() / (nx * ny), **F64):
+                acc.v("InterSystemRecurrenceNetwork.cross_recurrence_rate:"
+                      "value:" + tag, "", net.cross_recurrence_rate(),
+                      CR.sum() / (nx * ny))
+            if acc.budget(("sisrn", variant), picks=(0,)):
+                for name in I_METHODS[2:]:
+                    acc.evals += 1
+                    try:
+                        getattr(net, name)()
+                    except NotImplementedError:
+                        acc.x("InterSystemRecurrenceNetwork.%s: "
+                              "NotImplementedError" % name)
+                    except Exception as e:   # noqa
+                        acc.v("InterSystemRecurrenceNetwork.%s:raises:%s" % (
+                            name, tag), _exc(e), _exc(e), "no exception")
+    return nx + ny
+
+
+def fam_scale(case):
+    acc = Acc()
+    n = {"rp": _scale_rp, "cross": _scale_cross, "joint": _scale_joint,
+         "isrn": _scale_isrn}[case["kind"]](case, acc)
+    return acc.result(n <= 1)
+
+
+def _scale_cases(thorough):
+    out = []
+    sizes = [130, 150, 209, 300]
+    pats = ["saw", "steps", "blocks", "squares", "qres"]
+    for n in sizes:
+        for p in pats:
+            out.append({"kind": "rp", "x": [p, n, 0], "emb": None})
+        for p in (["saw", "squares"] if not thorough else pats):
+            out.append({"kind": "rp", "x": [p, n, 0], "emb": [3, 2]})
+            if thorough:
+                out.append({"kind": "rp", "x": [p, n, 0], "emb": [2, 1]})
+        out.append({"kind": "rp", "x": ["saw", n, 1], "emb": None})
+        out.append({"kind": "rp", "x": ["squares", n, 1], "emb": [3, 2]})
+    if thorough:
+        for p in pats:
+            out.append({"kind": "rp", "x": [p, 263, 0], "emb": [3, 2]})
+    for (p, n), (q, m), emb in [
+            (("saw", 150), ("qres", 209), None),
+            (("squares", 209), ("steps", 130), [2, 1]),
+            (("blocks", 130), ("saw", 300), None),
+            (("steps", 300), ("squares", 150), [3, 2])]:
+        out.append({"kind": "cross", "x": [p, n, 0], "y": [q, m, 0],
+                    "emb": emb})
+    for n in [150, 209] + ([300] if thorough else []):
+        for lag in (40, -40, 1, 0):
+            out.append({"kind": "joint", "x": ["saw", n, 0],
+                        "y": ["qres", n, 0], "lag": lag, "emb": None})
+        out.append({"kind": "joint", "x": ["squares", n, 0],
+                    "y": ["steps", n, 0], "lag": 40,
+                    "emb": [[2, 1], [3, 2]]})
+        out.append({"kind": "joint", "x": ["blocks", n, 0],
+                    "y": ["squares", n, 0], "lag": -40,
+                    "emb": [[3, 2], [2, 1]]})
+    for (n, m) in [(130, 90), (209, 150)] + ([(150, 209)] if thorough else []):
+        out.append({"kind": "isrn", "x": ["saw", n, 0], "y": ["qres", m, 0],
+                    "emb": None})
+        out.append({"kind": "isrn", "x": ["steps", n, 0],
+                    "y": ["blocks", m, 0], "emb": [2, [1, 2]]})
+    out.sort(key=lambda c: (c["x"][1] + (c.get("y") or [0, 0])[1]))
+    return out
+
+
 FAMILIES = {"rp": fam_rp, "cross": fam_cross, "joint": fam_joint,
-            "isrn": fam_isrn}
+            "isrn": fam_isrn, "scale": fam_scale}
 
 
 # --------------------------------------------------------------------------
@@ -1013,7 +1489,10 @@ def run(ctx):
         "cross / joint / isrn: all pairs of series within the stated length "
         "and alphabet bounds (see bounds), lags -2..2.  A case is trivial "
         "when the plot has a single entry; distinct = distinct tuples of all "
-        "matrices and line histograms observed for the case." % (
+        "matrices and line histograms observed for the case.  scale: a "
+        "fixed list of structured dyadic series with 130..300 samples "
+        "(patterns saw/steps/blocks/squares/qres, NaN at positions around "
+        "0/128/256/end), vectorised oracle." % (
             lmax, ALPHA, EMBS, STD_MENU, RATES))
     only = [f for f in os.environ.get("VERIF_C07_FAMILIES", "").split(",")
             if f]                      # development aid: run some families
@@ -1035,12 +1514,19 @@ def run(ctx):
         ctx.explore("joint", jc, desc="JointRecurrencePlot/Network with lag")
     if not only or "isrn" in only:
         ctx.explore("isrn", ic, desc="InterSystemRecurrenceNetwork")
+    sc = _scale_cases(thorough)
+    if not only or "scale" in only:
+        ctx.explore("scale", sc, chunk=1, desc="130..300 state vectors: "
+                    "every way of choosing the threshold, cross (150,209), "
+                    "joint lag +-40, inter-system (130,90)")
     ctx.notes.update({
         "rp_scalar_length_max": lmax, "rp_nan_length_max": 4,
         "rp_2d_length_max": 3, "rp_cases": len(cases),
         "cross_cases": len(cc), "cross_lengths": "(1..4)x(1..4)",
         "joint_cases": len(jc), "joint_lengths": "1..4", "lags": "-2..2",
-        "isrn_cases": len(ic), "isrn_lengths": "(1..4)x(1..4)"})
+        "isrn_cases": len(ic), "isrn_lengths": "(1..4)x(1..4)",
+        "scale_cases": len(sc), "scale_sizes": [130, 150, 209, 300] + (
+            [263] if thorough else []), "scale_lags": [0, 1, 40, -40]})
     ctx.assumptions += [
         "all alphabets are dyadic, so the float32 storage of the library is "
         "exact and the oracle decides every comparison in rational "
